@@ -4,7 +4,9 @@ MSSM: a deviation-bounded lattice of on-shell parameter sets (all 8 sign pattern
 point) is built exactly like examples/example-gm2calc.cpp; for every point accepted without exception /
 problem the Lagrangian parameters reported by the public getters are fed to oracle/mssm_ref.py (mpmath, own
 mass matrices, real-orthogonal signed-mass diagonalisation, Eqs.(2.11a,b) of arXiv:1311.1775) and compared with
-amu1LChi0, amu1LChipm and calculate_amu_1loop to 1e-8 of the sum of absolute terms.
+amu1LChi0, amu1LChipm and calculate_amu_1loop to 1e-8 of the sum of absolute terms.  The same is done for
+calculate_amu_1loop_non_tan_beta_resummed (parameters of a copy converted with convert_to_non_tan_beta_resummed(), whose
+Yukawa must be sqrt2 m_mu/vd) and, for a subset, on a persistent model object re-used from point to point.
 
 THDM: mass- and gauge-basis lattices x all six Yukawa types x non-diagonal Delta_l / Pi_l patterns; the
 reported Yukawa matrices and masses are fed to oracle/thdm_ref.py (generation sum of the scalar, pseudoscalar
@@ -147,10 +149,28 @@ def _single(i, j, v):
 
 
 DENSE = [0.01, 0.02, -0.03, 0.04, 0.05, 0.06, -0.07, 0.08, 0.09]
+
+
+def _pair(i, j, a, b):
+    m = [0.0] * 9
+    m[3 * i + j] = a
+    m[3 * j + i] = b
+    return m
+
+
+# both entries of a muon-coupling pair present, with equal and with opposite signs (the chirality-flip term is
+# Re[(y_{g mu} y_{mu g})^*] m_g/m_mu: its sign matters), an antisymmetric matrix and a dense one with generic signs
+PAIRS = [("p01++", _pair(0, 1, 0.1, 0.07)), ("p01+-", _pair(0, 1, 0.1, -0.07)), ("p01-+", _pair(0, 1, -0.1, 0.07)),
+         ("p12++", _pair(1, 2, 0.1, 0.07)), ("p12+-", _pair(1, 2, 0.1, -0.07)), ("p12-+", _pair(1, 2, -0.1, 0.07)),
+         ("p12--", _pair(1, 2, -0.1, -0.07)),
+         ("antisym", [0.0, 0.05, -0.02, -0.05, 0.0, 0.08, 0.02, -0.08, 0.0]),
+         ("dense-mixed", [0.03, -0.02, 0.05, 0.04, -0.06, 0.07, -0.01, -0.09, 0.02])]
 PATTERNS_ALL = [("zero", [0.0] * 9)] + \
     [("e%d%d" % (i, j), _single(i, j, 0.1 if (i + j) % 2 == 0 else -0.1)) for i in range(3) for j in range(3)] + \
-    [("dense", DENSE)]
-PATTERNS_QUICK = [p for p in PATTERNS_ALL if p[0] in ("zero", "e01", "e10", "e11", "e12", "e21", "dense")]
+    [("dense", DENSE)] + PAIRS
+PATTERNS_QUICK = [p for p in PATTERNS_ALL if p[0] in ("zero", "e01", "e10", "e11", "e12", "e21", "dense", "p01+-", "p12++",
+                                                     "p12+-", "antisym", "dense-mixed")]
+PATTERNS_SM = [p for p in PATTERNS_ALL if p[0] in ("zero", "p12+-", "dense-mixed")]
 
 # mass basis: (mh, mH, mA, mHp, sba, l6, l7, tb, m122, zeta_l)
 TM_BASE = (125.0, 400.0, 420.0, 440.0, 0.999, 0.0, 0.0, 3.0, 40000.0, 0.0)
@@ -175,7 +195,7 @@ def _tg_alpha(b):
 def thdm_points(quick):
     """list of (cmdline, key-tuple, scalar/SM-config id)"""
     pats = PATTERNS_QUICK if quick else PATTERNS_ALL
-    pats_sm = [p for p in PATTERNS_ALL if p[0] in ("zero", "e12", "dense")]
+    pats_sm = PATTERNS_SM
     out, cid = [], 0
     cfgs = []
     for p, d in deviations(TM_BASE, TM_ALPHA, 2):
@@ -237,9 +257,15 @@ MNAMES = ["g1", "g2", "vd", "vu", "mu", "M1", "M2", "ml2", "me2", "y", "Ty", "Ae
 
 
 def parse_M(tk):
-    v = [unhex(t) for t in tk[2:]]
+    """tokens of an `M OK ...` line -> (par, lib, ntr) ; ntr = None | ('EXC', text) | dict(tot, par, chi0, chipm)"""
+    i = tk.index("NTR")
+    v = [unhex(t) for t in tk[2:i]]
     par = dict(zip(MNAMES, v[:13]))
-    return par, dict(chi0=v[13], chipm=v[14], tot=v[15], lib_masses=v[16:])
+    lib = dict(chi0=v[13], chipm=v[14], tot=v[15], lib_masses=v[16:])
+    if tk[i + 1] != "OK":
+        return par, lib, ("EXC", " ".join(tk[i + 1:])[:60])
+    w = [unhex(t) for t in tk[i + 2:]]
+    return par, lib, dict(tot=w[0], par=dict(zip(MNAMES, w[1:14])), chi0=w[14], chipm=w[15])
 
 
 def parse_T(tk):
@@ -261,7 +287,7 @@ def check_M(line, res):
     tk = res.split()
     if tk[1] != "OK":
         return "skip", " ".join(tk[1:])[:60]
-    par, lib = parse_M(tk)
+    par, lib, ntr = parse_M(tk)
     try:
         r = mssm_ref.amu_1loop(par, detail=True)
     except ValueError as e:
@@ -270,18 +296,46 @@ def check_M(line, res):
     if not all(math.isfinite(lib[k]) for k in ("chi0", "chipm", "tot")):
         return "fail", dict(which="nonfinite", what="library returned chi0=%r chipm=%r total=%r"
                             % (lib["chi0"], lib["chipm"], lib["tot"]), err=float("inf"))
-    e0 = abs(mpf(lib["chi0"]) - r["chi0"]) / r["sumabs0"]
-    ec = abs(mpf(lib["chipm"]) - r["chipm"]) / r["sumabsc"]
-    et = abs(mpf(lib["tot"]) - r["chi0"] - r["chipm"]) / (r["sumabs0"] + r["sumabsc"])
     sig = (r["chi0_pattern"], r["smuR_index"])
-    worst = float(max(e0, ec, et))
-    for which, e, lv, rv in (("amu1LChi0", e0, lib["chi0"], r["chi0"]), ("amu1LChipm", ec, lib["chipm"], r["chipm"]),
-                             ("calculate_amu_1loop", et, lib["tot"], r["chi0"] + r["chipm"])):
-        if not e <= TOL:
-            return "fail", dict(which=which, err=float(e), sig=sig,
-                                what="%s = %.15e, independent evaluation %.15e (deviation %.3e of sum|terms|, allowed %.0e)"
-                                % (which, lv, float(rv), float(e), TOL))
-    return "ok", dict(err=worst, sig=sig)
+
+    def compare(r, triples):
+        worst = 0.0
+        for which, lv, rv, scale in triples:
+            e = abs(mpf(lv) - rv) / scale if math.isfinite(lv) else mpf("inf")
+            if not e <= TOL:
+                return None, dict(which=which, err=float(e), sig=sig,
+                                  what="%s = %.15e, independent evaluation %.15e (deviation %.3e of sum|terms|, allowed %.0e)"
+                                  % (which, lv, float(rv), float(e), TOL))
+            worst = max(worst, float(e))
+        return worst, None
+
+    worst, bad = compare(r, (("amu1LChi0", lib["chi0"], r["chi0"], r["sumabs0"]),
+                             ("amu1LChipm", lib["chipm"], r["chipm"], r["sumabsc"]),
+                             ("calculate_amu_1loop", lib["tot"], r["chi0"] + r["chipm"], r["sumabs0"] + r["sumabsc"])))
+    if bad:
+        return "fail", bad
+    # without tan(beta) resummation: Lagrangian parameters of the copy converted with convert_to_non_tan_beta_resummed()
+    if isinstance(ntr, tuple):
+        return "ok", dict(err=worst, sig=sig, ntr="skipped: " + ntr[1])
+    p2 = ntr["par"]
+    same = all(p2[k] == par[k] for k in MNAMES if k not in ("y", "Ty"))
+    ytree = math.sqrt(2.0) * par["mm"] / par["vd"]
+    if not same or abs(p2["y"] - ytree) > 1e-14 * ytree or abs(p2["Ty"] - p2["y"] * p2["Ae"]) > 1e-14 * abs(p2["y"] * p2["Ae"]):
+        return "fail", dict(which="non_tan_beta_resummed:parameters", err=float("inf"), sig=sig,
+                            what="convert_to_non_tan_beta_resummed() must only reset the Yukawa to sqrt2 m_mu/vd = %.17g and T = y A: "
+                            "got y = %.17g, T = %.17g, other parameters unchanged: %s" % (ytree, p2["y"], p2["Ty"], same))
+    try:
+        r2 = mssm_ref.amu_1loop(p2)
+    except ValueError as e:
+        return "fail", dict(which="non_tan_beta_resummed:tachyon-not-flagged", err=float("inf"), sig=sig,
+                            what="non-resummed parameter set accepted although the rebuilt scalar mass matrix has a non-positive eigenvalue")
+    w2, bad = compare(r2, (("non_tan_beta_resummed:amu1LChi0", ntr["chi0"], r2["chi0"], r2["sumabs0"]),
+                           ("non_tan_beta_resummed:amu1LChipm", ntr["chipm"], r2["chipm"], r2["sumabsc"]),
+                           ("calculate_amu_1loop_non_tan_beta_resummed", ntr["tot"], r2["chi0"] + r2["chipm"],
+                            r2["sumabs0"] + r2["sumabsc"])))
+    if bad:
+        return "fail", bad
+    return "ok", dict(err=max(worst, w2), sig=sig, ntr="checked")
 
 
 def check_T(line, res):
@@ -303,14 +357,15 @@ def check_T(line, res):
                             what="calculate_amu_1loop(THDM) = %.15e, independent evaluation %.15e (deviation %.3e of "
                             "sum|terms|, allowed %.0e; parts %s)" % (lib, float(r["amu"]), float(e), TOL,
                             {k: float("%.6g" % float(v)) for k, v in r["parts"].items()}))
-    return "ok", dict(err=float(e), sig=(offdiag, float(r["amu"]) > 0))
+    flip = tuple((d["ylA"][g][1][0] * d["ylA"][1][g][0] > 0) - (d["ylA"][g][1][0] * d["ylA"][1][g][0] < 0) for g in (0, 2))
+    return "ok", dict(err=float(e), sig=(offdiag, float(r["amu"]) > 0, flip))
 
 
 def _work(chunk):
     out = []
     for kind, idx, line, res in chunk:
         try:
-            st, info = (check_M if kind == "M" else check_T)(line, res)
+            st, info = (check_T if kind == "T" else check_M)(line, res)
         except Exception as e:   # oracle failure = infrastructure problem, reported loudly by the parent
             st, info = "oracle", "%s: %r" % (line, e)
         out.append((kind, idx, st, info))
@@ -370,13 +425,35 @@ def run(ctx):
                          "%s: result differs between lattice order and reversed order within one process (first differing token %s)"
                          % (_decode(lines[i]), _first_diff(a, b)),
                          {"kind": "H", "line": lines[i], "before": lines[i + 1] if i + 1 < len(lines) else lines[i - 1]})
+    # object re-use (the pattern of examples/example-gm2scan.cpp): a subset of the lattice is evaluated on ONE persistent
+    # model object that is moved from point to point through the public setters + calculate_masses() (MR) and on copies
+    # of that already evaluated object (MC).  Order: alternately from both ends of the subset, so that consecutive
+    # points differ in many inputs.  Same oracle; in addition the result line must be bitwise the fresh-object one.
+    step = 7 if ctx.quick else 13
+    sub = list(range(3, len(mpts), step))
+    order = []
+    for k in range((len(sub) + 1) // 2):
+        order.append(sub[k])
+        if len(sub) - 1 - k != k:
+            order.append(sub[len(sub) - 1 - k])
+    rlist = [(i, ("MC" if n % 3 == 2 else "MR")) for n, i in enumerate(order)]
+    rlines = [cmd + mlines[i][1:] for i, cmd in rlist]
+    rres = run_harness(rlines)
+    for (i, cmd), ln, a in zip(rlist, rlines, rres):
+        if a != mres[i]:
+            nhist += 1
+            ctx.fail("MSSM.object-reuse:%s:differs-from-fresh-object" % cmd,
+                     "%s: result on a re-used model object differs from the fresh-object result (first differing token %s)"
+                     % (_decode(ln), _first_diff(mres[i], a)), {"kind": "R", "lines": rlines[:rlines.index(ln) + 1][-40:], "fresh": mlines[i]})
     ctx.note("history_dependent_cases", nhist)
+    ctx.note("object_reuse_chain_points", len(rlist))
     ctx.note("mssm_lattice_points", len(mpts))
     ctx.note("thdm_lattice_points", len(tpts))
 
     # chunks: MSSM in fixed blocks; THDM grouped by scalar configuration (shared loop-integral cache)
     chunks = []
     items = [("M", i, mlines[i], mres[i]) for i in range(len(mpts))]
+    items += [("R", n, rlines[n], rres[n]) for n in range(len(rlist))]
     for i in range(0, len(items), 200):
         chunks.append(items[i:i + 200])
     cur, curid = [], None
@@ -405,10 +482,11 @@ def run(ctx):
         except ArithmeticError as e:
             raise InfraError("oracle failed: %s" % e)
 
-    skipped = {"M": {}, "T": {}}
-    checked = {"M": 0, "T": 0}
-    worst = {"M": 0.0, "T": 0.0}
-    worst_at = {"M": None, "T": None}
+    skipped = {"M": {}, "T": {}, "R": {}}
+    checked = {"M": 0, "T": 0, "R": 0}
+    worst = {"M": 0.0, "T": 0.0, "R": 0.0}
+    worst_at = {"M": None, "T": None, "R": None}
+    ntr = {}
     fails = []
     stop = False
     with mp.Pool(min(16, os.cpu_count() or 4)) as pool:
@@ -425,8 +503,12 @@ def run(ctx):
                     continue
                 if info["err"] > worst[kind]:
                     worst[kind] = info["err"]
-                    worst_at[kind] = mlines[idx] if kind == "M" else tlines[idx]
-                if kind == "M":
+                    worst_at[kind] = {"M": mlines, "T": tlines, "R": rlines}[kind][idx]
+                if kind in ("M", "R"):
+                    ntr[info["ntr"]] = ntr.get(info["ntr"], 0) + 1
+                if kind == "R":
+                    ctx.nontrivial(("MSSM-reuse", rlist[idx][1], info["sig"][0], info["sig"][1]))
+                elif kind == "M":
                     q = mpts[idx][0]
                     ctx.nontrivial(("MSSM", sign_name(q), info["sig"][0], info["sig"][1], q[6] > 0, q[6] < 0,
                                     _sm_class(mpts[idx][2])))
@@ -438,7 +520,14 @@ def run(ctx):
         if stop:
             pool.terminate()
     for kind, idx, info in fails:
-        if kind == "M":
+        if kind == "R":
+            i, cmd = rlist[idx]
+            q, origin, sm = mpts[i]
+            ctx.fail("MSSM.object-reuse:%s:%s:sgn(mu,M1,M2)=%s" % (cmd, info["which"], sign_name(q)),
+                     "%s (point %d of the re-use chain, %s): %s"
+                     % (_decode(rlines[idx]), idx, "persistent object moved by setters" if cmd == "MR" else "copy of the evaluated persistent object",
+                        info["what"]), {"kind": "R", "lines": rlines[:idx + 1][-40:], "fresh": mlines[i]})
+        elif kind == "M":
             q, origin, sm = mpts[idx]
             key = "MSSM.%s:sgn(mu,M1,M2)=%s%s" % (info["which"], sign_name(q), "" if sm is None else ":SM-varied")
             ctx.fail(key, "tb=%g mu=%g M1=%g M2=%g mL=%g mR=%g Amu=%g [%s%s]: %s"
@@ -448,7 +537,10 @@ def run(ctx):
             b, typ, pname, smc = tpts[idx][1]
             key = "THDM.%s:%s-basis:type%d:%s:%s" % (info["which"], b, typ, pname, smc)
             ctx.fail(key, "%s: %s" % (_decode(tlines[idx]), info["what"]), {"kind": "T", "line": tlines[idx]})
-    ctx.evals(checked["M"] + checked["T"])
+    ctx.evals(checked["M"] + checked["T"] + checked["R"])
+    print("[C03] MSSM non-tan-beta-resummed clause: %s" % dict(sorted(ntr.items())))
+    print("[C03] MSSM object re-use chain: %d points, %d checked, %d skipped %s; worst deviation %.2e"
+          % (len(rlist), checked["R"], sum(skipped["R"].values()), dict(sorted(skipped["R"].items())), worst["R"]))
     nskipM, nskipT = sum(skipped["M"].values()), sum(skipped["T"].values())
     print("[C03] MSSM: %d lattice points, %d checked, %d skipped %s; worst deviation %.2e of sum|terms|"
           % (len(mpts), checked["M"], nskipM, dict(sorted(skipped["M"].items())), worst["M"]))
@@ -476,7 +568,8 @@ def run(ctx):
         "right-smuon index, sign A_mu) resp. (basis, type, pattern, LFV couplings present, sign of result)"
         % (4 if ctx.quick else 6, 2 if ctx.quick else 3, "" if ctx.quick else " + signs x tan beta x 3^6 hierarchy product",
            1 if ctx.quick else 2, len(PATTERNS_QUICK if ctx.quick else PATTERNS_ALL)),
-        {"mssm_checked": checked["M"], "mssm_skipped": dict(sorted(skipped["M"].items())),
+        {"mssm_checked": checked["M"], "mssm_non_resummed_clause": dict(sorted(ntr.items())),
+         "mssm_object_reuse_checked": checked["R"], "mssm_object_reuse_skipped": dict(sorted(skipped["R"].items())), "mssm_skipped": dict(sorted(skipped["M"].items())),
          "thdm_checked": checked["T"], "thdm_skipped": dict(sorted(skipped["T"].items())),
          "worst_deviation_rel_sumabs": {"mssm": float("%.3g" % worst["M"]), "thdm": float("%.3g" % worst["T"])},
          "worst_at": {"mssm": _decode(worst_at["M"]), "thdm": _decode(worst_at["T"])},
@@ -487,6 +580,17 @@ def replay(ctx, path):
     global _EXE
     _EXE = build.harness("mssm_ref", "plain", ["mssm_ref.cpp"])
     d = json.load(open(path))["data"]
+    if d["kind"] == "R":
+        res = run_harness(d["lines"])[-1]
+        fresh = run_harness([d["fresh"]])[0]
+        st, info = check_M(d["lines"][-1], res)
+        if st == "fail" or res != fresh:
+            print("replay: re-use chain ending in %s -> %s" % (_decode(d["lines"][-1]),
+                  info["what"] if st == "fail" else "differs from fresh object: " + _first_diff(fresh, res)))
+            print("VIOLATION property=C03 replay=%s" % path)
+            return 1
+        print("replay: holds now: chain of %d points ending in %s" % (len(d["lines"]), _decode(d["lines"][-1])))
+        return 0
     if d["kind"] == "H":
         alone = run_harness([d["line"]])[0]
         after = run_harness([d["before"], d["line"]])[1]
